@@ -5,6 +5,7 @@ import (
 	"go/token"
 	"go/types"
 	"os"
+	"sort"
 	"strings"
 
 	"golang.org/x/tools/go/ssa"
@@ -270,8 +271,8 @@ func checkSeekTables(p *Program, r *Report) {
 	{
 		f := p.MustFunc("(*Reader).seekIndexed")
 		fk := funcKey(f)
-		cfg := &simCfg{Event: map[string]bool{"(*Reader).seekLinear": true, "(*tableIter).Next": true, "(*Reader).tabIterAt": true, "(*blockIter).seek": true, "(*Reader).start": true},
-			Pure: map[string]bool{keyName: true, "method:(record).typ": true}, Opaque: map[string]bool{"newRecord": true}}
+		cfg := &simCfg{Event: map[string]bool{"(*Reader).seekLinear": true, "(*tableIter).Next": true, "(*Reader).tabIterAt": true, "(*blockIter).seek": true, "(*Reader).start": true, "(*blockReader).seek": true},
+			Pure: map[string]bool{keyName: true, "method:(record).typ": true}, Opaque: map[string]bool{"newRecord": true, "(*Reader).newBlockReader": true}}
 		c, _ := runSim(p, f, cfg, nil)
 		nRet, nDesc := 0, 0
 		for _, s := range c.Samples {
@@ -328,33 +329,12 @@ func checkSeekTables(p *Program, r *Report) {
 				} else {
 					r.ok("DT-DESCEND", fk+" / descends only into index blocks", "descend => child.typ = 'i' and positioned")
 				}
-				// termination: index blocks are written after the blocks they index, so a
-				// descent step must lead to a strictly lower offset than the index block it
-				// was read from; otherwise an entry pointing at its own (or a later) index
-				// block makes the descent loop for ever
-				var childOff *Term
-				for _, e := range s.Events {
-					if e.Op == "ev" && e.Aux == "(*Reader).tabIterAt" {
-						childOff = e.Args[1]
-					}
-				}
-				decreases := false
-				for _, k := range sortedFactKeys(s.St) {
-					t := s.St.fterm[k]
-					if t.Op == "lt" && s.St.facts[k] && childOff != nil && t.Args[0] == childOff && strings.Contains(t.Args[1].key, "tableIter.blockOff") {
-						decreases = true
-					}
-				}
-				if !decreases {
-					r.violate("DESCEND-DECREASES", fk+" / every descent step leads to a lower offset", p.pos(f.Pos()), "the index descent continues into a child block without having established that the child lies at a lower offset than the index block it was read from: an index entry that points at its own or a later index block (damaged or hostile table) makes the seek loop for ever", w)
-				} else {
-					r.ok("DESCEND-DECREASES", fk+" / every descent step leads to a lower offset", "descend => child offset < offset of the current index block (ranking function of the loop)")
-				}
 			}
 		}
 		r.floor("DT-DESCEND.return", nRet, 1, "returns of a child block from the index descent")
 		r.floor("DT-DESCEND.descend", nDesc, 1, "descent iterations")
 	}
+	guarded(r, []string{"DESCEND-DECREASES"}, func() { checkDescendDecreases(p, r) })
 }
 
 // READ-WIDTH: the table reader tells padded from unpadded blocks by looking at
@@ -504,4 +484,95 @@ func checkSingleDecoder(p *Program, r *Report) {
 		}
 	}
 	r.floor("SINGLE-DECODER", n, 1, "functions advancing a block iterator's offset")
+}
+
+func checkDescendDecreases(p *Program, r *Report) {
+	keyName := "method:(record).key"
+	// ---- DESCEND-DECREASES: termination of the index descent on hostile tables.
+	// Index blocks are written after the blocks they index, so a descent step
+	// must lead to a strictly lower offset than the index block it was read
+	// from; otherwise an entry pointing at its own (or a later) index block
+	// makes the descent loop for ever.  Ranking function: an unsigned field of
+	// the table iterator whose Next feeds the loop.  At every back edge of the
+	// descent loop the field's value in the iterator handed to the next round
+	// is provably smaller than its value in this round's iterator at the head
+	// of the round.  (Which field is found by trying the unsigned fields.)
+	{
+		f := p.MustFunc("(*Reader).seekIndexed")
+		fk := funcKey(f)
+		cfg := &simCfg{Event: map[string]bool{"(*tableIter).Next": true, "(*blockIter).seek": true, "(*blockReader).seek": true, "(*Reader).seekLinear": true},
+			Pure:   map[string]bool{keyName: true, "method:(record).typ": true, "(*blockReader).getType": true},
+			Opaque: map[string]bool{"newRecord": true, "(*Reader).newBlockReader": true, "(*Reader).start": true}, BackVals: true}
+		c, _ := runSim(p, f, cfg, nil)
+		n := 0
+		for _, s := range c.Samples {
+			if s.Kind != "back" || s.HeadSt == nil {
+				continue
+			}
+			// this iteration's Next on a table iterator
+			var recv *Term
+			for _, e := range s.Events {
+				if e.Op == "ev" && e.Aux == "(*tableIter).Next" {
+					recv = e.Args[0]
+				}
+			}
+			if recv == nil {
+				continue
+			}
+			n++
+			next := recv
+			var names []string
+			for nm := range s.HeadVals {
+				names = append(names, nm)
+			}
+			sort.Strings(names)
+			for _, nm := range names {
+				if s.HeadVals[nm] == recv && s.NextVals[nm] != nil {
+					next = s.NextVals[nm]
+				}
+			}
+			decreases, tried := false, 0
+			if pt, ok := recv.Typ.Underlying().(*types.Pointer); ok && recv.Typ != nil {
+				if nt, ok := pt.Elem().(*types.Named); ok {
+					if stt, ok := nt.Underlying().(*types.Struct); ok {
+						for i := 0; i < stt.NumFields(); i++ {
+							bt, ok := stt.Field(i).Type().Underlying().(*types.Basic)
+							if !ok || bt.Info()&types.IsUnsigned == 0 {
+								continue
+							}
+							tried++
+							old := a_load(s.HeadSt, mk("field", fieldAux(nt, i), nil, recv))
+							nw := a_load(s.St, mk("field", fieldAux(nt, i), nil, next))
+							if s.St.truth(tLt(nw, old)) == 1 || provedLt(s.St, nw, old) {
+								decreases = true
+							}
+						}
+					}
+				}
+			}
+			w := witnessOf(p, s.St.trace)
+			if !decreases {
+				r.violate("DESCEND-DECREASES", fk+" / every descent step leads to a lower offset", p.pos(f.Pos()), "the index descent goes round again without an unsigned field of its table iterator (the offset of the index block being read) having become smaller: an index entry that points at its own or a later index block (damaged or hostile table) makes the seek loop for ever", w)
+			} else {
+				r.ok("DESCEND-DECREASES", fk+" / every descent step leads to a lower offset", "at every back edge the block offset of the iterator handed on is below that of the iterator read in this round (ranking function of the loop)")
+			}
+		}
+		r.floor("DESCEND-DECREASES", n, 1, "back edges of the index descent")
+	}
+}
+
+// guarded runs one rule block; if it loses its anchor (or runs out of its
+// analysis budget) the rules it decides are reported as UNDECIDED and the
+// caller goes on with its other rule blocks.
+func guarded(r *Report, rules []string, f func()) {
+	defer func() {
+		if e := recover(); e != nil {
+			ae, ok := e.(analysisError)
+			if !ok {
+				panic(e)
+			}
+			r.violate("UNDECIDED", "anchor / "+ae.msg, "-", "the analysis cannot resolve a construct its rules ("+strings.Join(rules, ", ")+") are anchored in ("+ae.msg+"): the structural condition they decide is not established on this tree", nil)
+		}
+	}()
+	f()
 }
